@@ -104,7 +104,8 @@ def dominating_edges(tr, body, site_bb):
 
 
 TRY_BRANCH = "core::ops::try_trait::Try::branch"
-PASS_CALLS = ("core::result::Result::<T, E>::map_err", "core::task::poll::Poll::<core::result::Result<T, E>>::map_err",
+PASS_CALLS = ("core::ops::deref::Deref::deref", "core::ops::deref::DerefMut::deref_mut", "core::convert::AsRef::as_ref",
+              "core::result::Result::<T, E>::map_err", "core::task::poll::Poll::<core::result::Result<T, E>>::map_err",
               "core::result::Result::<T, E>::ok", "core::ops::try_trait::FromResidual::from_residual")
 
 
